@@ -229,6 +229,24 @@ def verdictSnap (id point : String) (now2 : Int) (stuck : Bool) : P String := do
   let own := if point == "start" then "C03" else if point == "boundary" then "C03+C10" else "C10"
   pure s!"{id} {modelV} ## dur={dur} dcls={cls} own={own} pt={point} jr={jr} ncand={cands.length}"
 
+/-- S lines: the automatic snapshot trigger. `S id threshold changes fired` -/
+def verdictS (line : String) : String :=
+  let toks := (line.splitOn " ").filter (· ≠ "")
+  let p : P String := do
+    expect "S"
+    let id ← tok
+    let thr ← pNat
+    let n ← pNat
+    let fired ← tok
+    let modelV := if autoFires n thr == (fired == "1") then "OK" else s!"DIFF auto-trigger model={autoFires n thr} impl={fired}"
+    -- the property: once the configured number of writes has accumulated, a snapshot within one interval
+    let dur := if n ≥ thr && fired != "1" then "rej:no-automatic-snapshot-after-threshold" else "adm"
+    let cls := if n > thr then "change-counter-overshoots-threshold" else "-"
+    pure s!"{id} {modelV} ## dur={dur} dcls={cls} own=C03 pt=auto jr=na ncand=0"
+  match p.run toks with
+  | .ok (v, _) => v
+  | .error e => s!"{toks.getD 1 "?"} SKIP parse:{e} ## dur=na"
+
 def verdictX (line : String) : String :=
   let toks := (line.splitOn " ").filter (· ≠ "")
   let p : P String := do
